@@ -81,7 +81,11 @@ class SetTyping:
             if isinstance(fn, ast.Name) and fn.id in self.set_returning and fn.id not in ("set",):
                 return False
         if isinstance(e, ast.BinOp) and isinstance(e.op, (ast.Sub, ast.BitOr, ast.BitAnd, ast.BitXor)):
-            return self.is_set(e.left, loc) or self.is_set(e.right, loc)
+            if self.is_set(e.left, loc) or self.is_set(e.right, loc):
+                return True
+            # set algebra on dict views (d.keys() - e.keys()) produces a plain set
+            return any(isinstance(x, ast.Call) and isinstance(x.func, ast.Attribute) and x.func.attr in ("keys", "items")
+                       and not x.args for x in (e.left, e.right))
         if isinstance(e, ast.IfExp):
             return self.is_set(e.body, loc) or self.is_set(e.orelse, loc)
         return False
